@@ -14,7 +14,7 @@ const P: &str = "C03";
 pub enum Sym { Seed(u8), Idx(u32) }
 
 pub fn seeds(seed: u64) -> Vec<Vec<u8>> { [16usize, 32, 64, 1, 128].iter().enumerate().map(|(i, l)| filler_bytes(seed, 0xC03 + i as u64, *l)).collect() }
-pub const VALUES: [u32; 7] = [0, 1, 2, 44, 60, 0x01020304, 0x7fff_ffff];
+pub const VALUES: [u32; 11] = [0, 1, 2, 44, 60, 0x01020304, 0x7fff_ffff, 0xff, 0x100, 0xffff, 0x0100_0000];
 
 pub struct Space { seeds: Vec<Vec<u8>>, values: Vec<u32>, depth: usize, label: String, memo: Mutex<HashMap<(u8, Vec<u32>), Option<XKey>>>, curve: Curve }
 impl Space {
@@ -64,7 +64,8 @@ impl HistSpace for Space {
 fn space(ctx: &Ctx, values: &[u32], depth: usize, label: &str) -> Space { Space { seeds: seeds(ctx.seed), values: values.to_vec(), depth, label: label.into(), memo: Default::default(), curve: Curve::new() } }
 
 pub fn run(ctx: &'static Ctx) {
-    bfs(ctx, space(ctx, &VALUES, if ctx.quick() { 2 } else { 3 }, "bfs-full-alphabet"));
+    bfs(ctx, space(ctx, &VALUES, 2, "bfs-full-alphabet"));
+    if ctx.thorough() { bfs(ctx, space(ctx, &VALUES[..7], 3, "bfs-seven-values-depth3")); }
     if ctx.thorough() { bfs(ctx, space(ctx, &[0, 0x7fff_ffff], 7, "bfs-extremes-deep")); bfs(ctx, space(ctx, &[0, 1, 0x01020304, 0x7fff_ffff], 4, "bfs-four-values-depth4")); }
     // lines: long paths of 0' with at most d deviating components
     let (maxd, dev) = if ctx.quick() { (16usize, 1usize) } else { (24, 2) };
